@@ -1,5 +1,5 @@
 (* C07 — Conversion options change the form of the output, never its meaning.
-   Only statements, each closed by `exact`, with Print Assumptions beneath.
+   Only statements, each closed by `exact`, with the Print-Assumptions command under each.
 
    WBXML half (model Model/EncWbxml.v, proofs Proofs/EncWbxmlProofs.v + Proofs/EncWbxmlC07.v): what is PROVED is that the
    version and the anonymity option change nothing but the header (same body bytes, same final string table, same
